@@ -163,6 +163,7 @@ type Exec struct {
 	violation *Violation
 	mapRev    bool
 	funcs     map[string]bool
+	model     []NDValue
 }
 
 type Violation struct {
@@ -419,6 +420,29 @@ func (x *Exec) violate(kind, msg string, extra *Term) {
 		m = map[string]uint64{}
 	}
 	v := &Violation{Kind: kind, Msg: msg, Pos: x.lastPos, Model: m, Trace: append([]int(nil), x.trace...), Observed: x.observed}
+	v.ND = x.ndValues(m)
+	if len(x.curKnown) > 0 {
+		v.Known = x.curKnown[len(x.curKnown)-1]
+	}
+	x.violation = v
+	x.end("violation", msg)
+}
+
+// sampleModel asks the solver for one assignment satisfying the path condition of a completed path.
+func (x *Exec) sampleModel() {
+	defer func() { recover() }()
+	r, m := x.S.Check(x.pc, nil, x.pcVars())
+	if r != Sat {
+		return
+	}
+	if m == nil {
+		m = map[string]uint64{}
+	}
+	x.model = x.ndValues(m)
+}
+
+func (x *Exec) ndValues(m map[string]uint64) []NDValue {
+	var out []NDValue
 	for _, e := range x.ndLog {
 		nv := NDValue{Name: e.Name, Kind: e.Kind}
 		if e.Conc != nil {
@@ -428,13 +452,12 @@ func (x *Exec) violate(kind, msg string, extra *Term) {
 				nv.Vals = append(nv.Vals, t.Eval(m))
 			}
 		}
-		v.ND = append(v.ND, nv)
+		if nv.Vals == nil {
+			nv.Vals = []uint64{}
+		}
+		out = append(out, nv)
 	}
-	if len(x.curKnown) > 0 {
-		v.Known = x.curKnown[len(x.curKnown)-1]
-	}
-	x.violation = v
-	x.end("violation", msg)
+	return out
 }
 
 // goPanic starts a Go-level panic on the current thread (it never returns normally).
